@@ -115,6 +115,8 @@ func init() {
 		},
 		"crypto/internal/boring.Enabled": nil,
 
+		"mvdan.cc/garble/internal/ctrlflow.setUnexportedField": setUnexportedField,
+
 		// --- asthelper literals with symbolic arguments
 		"mvdan.cc/garble/internal/asthelper.IntLit":    symLitExt(false),
 		"mvdan.cc/garble/internal/asthelper.UintLit":   symLitExt(false),
@@ -687,14 +689,42 @@ func drawPrefix(global bool) string {
 	return "draw:"
 }
 
+// consultPolicy asks the harness DrawPolicy about a draw. It returns a
+// positive bound to assume (result < bound), or 0. A negative answer ends the
+// path: the harness's draw budget is exhausted (stated in the evidence).
+func (ex *Exec) consultPolicy(fr *frame, method string, global bool, n int) int64 {
+	if ex.drawPolicy == nil {
+		return 0
+	}
+	if global {
+		method = "global." + method
+	}
+	pol := ex.drawPolicy
+	ex.drawPolicy = nil // the policy itself must not draw
+	b := asInt64(call(fr.i, fr, token.NoPos, pol, []value{method, n}))
+	ex.drawPolicy = pol
+	if b < 0 {
+		ex.noteOnce("draw budget in force: paths with more " + method + " draws than the harness allows are cut (harness DrawPolicy)")
+		panic(pathEnd{"assume-false", "draw budget"})
+	}
+	if b > 0 {
+		ex.noteOnce(fmt.Sprintf("draw bound in force: %s(n) < %d for some call sites (harness DrawPolicy)", method, b))
+	}
+	return b
+}
+
 // randDraw: a fresh value of the given kind with `bits` significant bits.
 func randDraw(method string, k types.BasicKind, bits uint8, global bool) externalFn {
 	return func(fr *frame, args []value) value {
 		ex := fr.i.ex
 		w := kindWidth(k)
+		b := ex.consultPolicy(fr, method, global, 0)
 		v := ex.freshVar(drawPrefix(global)+method, w)
 		if bits < w {
 			ex.assume(ex.ctx.Cmp(smt.OUlt, v, ex.ctx.Const(w, uint64(1)<<bits)))
+		}
+		if b > 0 {
+			ex.assume(ex.ctx.Cmp(smt.OUlt, v, ex.ctx.Const(w, uint64(b))))
 		}
 		ex.recordDraw(method, global, nil, v)
 		return sym{v, k}
@@ -729,18 +759,13 @@ func randDrawN(method string, k types.BasicKind, global bool) externalFn {
 			v = ex.freshVar(drawPrefix(global)+method, w)
 			ex.assume(c.Cmp(smt.OUlt, v, nt))
 		}
-		if ex.drawPolicy != nil && !global {
+		if ex.drawPolicy != nil {
 			nn := -1
 			if !isSym(n) {
 				nn = int(asInt64(n))
 			}
-			pol := ex.drawPolicy
-			ex.drawPolicy = nil // the policy itself must not draw
-			b := call(fr.i, fr, token.NoPos, pol, []value{method, nn})
-			ex.drawPolicy = pol
-			if bb := asInt64(b); bb > 0 {
+			if bb := ex.consultPolicy(fr, method, global, nn); bb > 0 {
 				ex.assume(c.Cmp(smt.OUlt, v, c.Const(w, uint64(bb))))
-				ex.noteOnce(fmt.Sprintf("draw bound in force: %s(n) < %d for some call sites (harness DrawPolicy)", method, bb))
 			}
 		}
 		ex.recordDraw(method, global, nt, v)
@@ -1062,4 +1087,62 @@ var pureExternals = map[string]bool{
 	"(*sync.RWMutex).Lock": true, "(*sync.RWMutex).Unlock": true,
 	"runtime.KeepAlive": true, "internal/abi.NoEscape": true, "strings.Clone": true,
 	"internal/bytealg.MakeNoZero": true,
+}
+
+// setUnexportedField(objRaw any, name string, valRaw any): assigns the named
+// field of the struct objRaw points to (garble does this with reflect+unsafe).
+func setUnexportedField(fr *frame, args []value) value {
+	obj := args[0].(iface)
+	name := argString(args[1])
+	val := args[2].(iface)
+	t := obj.t
+	v := obj.v
+	for {
+		pt, ok := t.Underlying().(*types.Pointer)
+		if !ok {
+			break
+		}
+		p := v.(*value)
+		if p == nil {
+			panic(runtimeError("setUnexportedField on nil pointer"))
+		}
+		t = pt.Elem()
+		st, ok := t.Underlying().(*types.Struct)
+		if !ok {
+			v = *p
+			continue
+		}
+		fields := (*p).(structure)
+		// direct field or a field of an embedded struct (one level, e.g. register / anInstruction)
+		var set func(st *types.Struct, fields structure) bool
+		set = func(st *types.Struct, fields structure) bool {
+			for k := 0; k < st.NumFields(); k++ {
+				f := st.Field(k)
+				if f.Name() == name {
+					if types.IsInterface(f.Type()) {
+						fr.i.writeCell(&fields[k], val)
+					} else {
+						fr.i.writeCell(&fields[k], val.v)
+					}
+					return true
+				}
+			}
+			for k := 0; k < st.NumFields(); k++ {
+				f := st.Field(k)
+				if f.Embedded() {
+					if est, ok := f.Type().Underlying().(*types.Struct); ok {
+						if set(est, fields[k].(structure)) {
+							return true
+						}
+					}
+				}
+			}
+			return false
+		}
+		if !set(st, fields) {
+			panic(targetPanic{iface{t: types.Typ[types.String], v: "invalid field: " + name}})
+		}
+		return nil
+	}
+	panic(engineBug("setUnexportedField: not a pointer to struct"))
 }
